@@ -28,7 +28,72 @@ func runC14(c *Ctx) {
 	c14Keywords(c)
 	c14FastPath(c)
 	c14RangeTables(c)
+	c14ClassTables(c)
 	c14Flag(c)
+	// the same-line rule of C02 is what makes "a line break may not precede . !. (" true
+	if ro := c.needRoles("C14.roles"); ro != nil {
+		c02SameLine(c, ro)
+	}
+}
+
+// c14ClassTables: each identifier class predicate consults its own range table for non-ASCII
+// code points, and the scanner uses the start class for the first character and the part class
+// for the following ones.
+func c14ClassTables(c *Ctx) {
+	const rule = "C14.class-tables"
+	tables := func(f *ssa.Function) map[string]bool {
+		out := map[string]bool{}
+		if f == nil {
+			return out
+		}
+		rr := c.P.Reach([]*ssa.Function{f}, c.inModule, nil)
+		for _, g := range rr.Order {
+			instrs(g, func(b *ssa.BasicBlock, i int, in ssa.Instruction) {
+				call, ok := in.(*ssa.Call)
+				if !ok {
+					return
+				}
+				for _, a := range call.Call.Args {
+					if u, ok := a.(*ssa.UnOp); ok {
+						if gl, ok := u.X.(*ssa.Global); ok && strings.HasPrefix(gl.Name(), "unicodeES5") {
+							out[gl.Name()] = true
+						}
+					}
+				}
+			})
+		}
+		return out
+	}
+	st, pt := c.fn("IsIdentifierStart"), c.fn("IsIdentifierPart")
+	if !c.need(rule, st, "IsIdentifierStart") || !c.need(rule, pt, "IsIdentifierPart") {
+		return
+	}
+	ts, tp := tables(st), tables(pt)
+	c.R.Check(rule, "start-uses-start-table", c.P.Pos(st.Pos()), ts["unicodeES5IdentifierStart"] && !ts["unicodeES5IdentifierPart"], "IsIdentifierStart must consult exactly the identifier-start range table")
+	c.R.Check(rule, "part-uses-part-table", c.P.Pos(pt.Pos()), tp["unicodeES5IdentifierPart"], "IsIdentifierPart must consult the identifier-part range table (combining marks, digits and connectors of other scripts continue an identifier but cannot start one)")
+	// scanner usage: the default arm tests the start class on the decoded rune; the continuation loop uses the part class
+	scan := c.scanFn()
+	ch, _ := decodedRune(scan)
+	startUse, partUse := false, false
+	instrs(scan, func(b *ssa.BasicBlock, i int, in ssa.Instruction) {
+		call, ok := in.(*ssa.Call)
+		if !ok {
+			return
+		}
+		if cal := calleeOf(call); cal != nil && c.inModule(cal) {
+			if t := tables(cal); t["unicodeES5IdentifierStart"] && !t["unicodeES5IdentifierPart"] && len(call.Call.Args) > 0 && call.Call.Args[len(call.Call.Args)-1] == ch {
+				startUse = true
+			}
+		}
+		if peekKind(calleeOf(call)) == "check" {
+			if g := fnValue(call.Call.Args[2]); g != nil && tables(g)["unicodeES5IdentifierPart"] {
+				partUse = true
+			}
+		}
+	})
+	c.R.Check(rule, "scanner-first-char", c.P.Pos(scan.Pos()), startUse, "an identifier token must begin on the identifier-start class of the decoded character")
+	c.R.Check(rule, "scanner-following-chars", c.P.Pos(scan.Pos()), partUse, "an identifier token must continue over the identifier-part class")
+	c.R.Floor(rule, 4)
 }
 
 const sentinel = " "
